@@ -11,6 +11,9 @@
  *   X:<code>                     write receipt, _exit(code)
  *   K:<sig>                      write receipt, kill(getpid(), sig)
  *   T                            ignore SIGTERM
+ *   G:<ms>                       fork a grandchild that inherits stdout/stderr (closes stdin), writes nothing, sleeps
+ *                                <ms> (at most 30 s) and exits: a lingering holder of the pipe write ends
+ *   Y:<fd>:<period_ms>           for ever: write 4 PRNG bytes to fd 1 or 2, sleep <period_ms> (a ticking child)
  *
  * The receipt file holds "<bytes read from stdin> <fnv1a-64 of them, hex> <eof seen 0/1> <note>\n"; it is rewritten
  * after every R/E op and before X/K/end, so stdin delivery is judged by the child's own account.
@@ -115,8 +118,19 @@ int main(int argc, char** argv) {
   prctl(PR_SET_PDEATHSIG, SIGKILL);
   if (getppid() == 1) _exit(97);
   signal(SIGPIPE, SIG_IGN);
-  /* the harness may have left SIGTERM etc. at defaults; make sure of it */
+  /* Dispositions and the signal mask survive exec: a check started as a background job of a non-interactive shell
+   * inherits SIGINT/SIGQUIT = SIG_IGN, and K:2 would then not end this process.  Start from a known state. */
   signal(SIGTERM, SIG_DFL);
+  signal(SIGINT, SIG_DFL);
+  signal(SIGQUIT, SIG_DFL);
+  signal(SIGUSR1, SIG_DFL);
+  signal(SIGUSR2, SIG_DFL);
+  signal(SIGHUP, SIG_DFL);
+  {
+    sigset_t none;
+    sigemptyset(&none);
+    sigprocmask(SIG_SETMASK, &none, NULL);
+  }
   if (argc < 3) return 96;
   uint64_t key = strtoull(argv[1], NULL, 0);
   receipt_path = argv[2];
@@ -224,6 +238,27 @@ int main(int argc, char** argv) {
       case 'T':
         signal(SIGTERM, SIG_IGN);
         break;
+      case 'G': {
+        pid_t g = fork();
+        if (g == 0) {
+          long ms = (long)a[0];
+          if (ms > 30000) ms = 30000; /* never outlives a run by much even if nobody kills it */
+          close(0);
+          signal(SIGTERM, SIG_DFL);
+          msleep_us(ms * 1000L);
+          _exit(0);
+        }
+        break;
+      }
+      case 'Y': {
+        int fd = (int)a[0];
+        if (fd != 1 && fd != 2) return 96;
+        for (;;) {
+          gen(&streams[fd], buf, 4);
+          write_all(fd, buf, 4);
+          msleep_us((long)a[1] * 1000L);
+        }
+      }
       default:
         return 96;
     }
